@@ -285,8 +285,8 @@ func runC19(c C19Case) (st Stats, err error) {
 	max := shippedDefragMax(c.Limit)
 
 	type before struct {
-		ids []string
-		cfg string
+		ids  []string
+		cfg  string
 		snap string
 	}
 	bef := make([]before, len(all))
@@ -473,6 +473,9 @@ func genC19(t *rapid.T, tier Tier) C19Case {
 			case r < nilw+13 && depth < 2:
 				e := genStack(depth + 1)
 				n.Elems = append(n.Elems, Node{T: "cond", KW: "k", Op: OpEq(), Expr: &e, Wrap: rapid.SampledFrom([]int{0, 0, WrapAlias}).Draw(t, "cwrap")})
+			case r >= 96:
+				// a typed nil pointer is a stored value, not a gap
+				n.Elems = append(n.Elems, LeafN(Val{K: "tnil", Depth: rapid.IntRange(1, 3).Draw(t, "tnil")}))
 			default:
 				tagN++
 				n.Elems = append(n.Elems, LeafN(VS("v"+itoa(tagN))))
@@ -503,11 +506,11 @@ func init() {
 			"Layered oracle: L0 strict (no panic, survivors are an order-preserving selection of the former elements, no growth, configuration untouched, nil-free trees untouched); " +
 			"L1 = exactly the former non-nil elements, no nil, Err()==nil at every stack (only asserted when every nil run is shorter than the limit). A case failing only L1 is accepted as the listed known finding " +
 			"iff the real result equals, stack by stack, what a literal port of the shipped (test-pinned) algorithm yields; otherwise VIOLATION. non-trivial = some stack needs relocation (a nil before a non-nil) or has trailing nils; distinct = distinct case JSON",
-		Gen:      genC19,
-		Run:      runC19,
-		Enum:     enumC19,
-		EnumNote: "all nil/non-nil patterns of length 0..10 (quick) / 0..12 (thorough) x 6 scan limits x 4 index-option settings",
-		Floors:   map[string]float64{"leading-nils": 0.1, "several-gaps": 0.1, "trailing-nils": 0.1, "nested-with-nils": 0.1, "run>=limit": 0.03, "nil-free": 0.005},
+		Gen:         genC19,
+		Run:         runC19,
+		Enum:        enumC19,
+		EnumNote:    "all nil/non-nil patterns of length 0..10 (quick) / 0..12 (thorough) x 6 scan limits x 4 index-option settings",
+		Floors:      map[string]float64{"leading-nils": 0.1, "several-gaps": 0.1, "trailing-nils": 0.1, "nested-with-nils": 0.1, "run>=limit": 0.03, "nil-free": 0.005},
 		Assumptions: []string{"element values are distinct tagged strings and nested instances (identity)", "the port of the shipped algorithm in c19.go is a trusted description of the known-defective behaviour (used only to recognise the listed finding, never to accept a wrong result as right)"},
 	})
 }
